@@ -235,7 +235,7 @@ META = {
 
 
 def plan(tier):
-    n1, n2 = (4, 3) if tier == "quick" else (6, 5)
+    n1, n2 = (4, 3) if tier == "quick" else (6, 4)
     return [
         Scenario("free-lossless", scen_free, params={"N": n1, "mode": "lossless"}, cover=[],
                  bounds={"free characters": n1}),
